@@ -192,6 +192,16 @@ def matrix_eigenvalue_decomposition(
     try:
         # Attempt to compute the eigendecomposition in the current precision
         L, Q = torch.linalg.eigh(A)
+        # In reduced precision LAPACK occasionally returns NaN/Inf without raising (e.g. float32 matrices with many
+        # exactly zero rows); treat that like a failure so that the double-precision retry below applies.
+        if (
+            retry_double_precision
+            and A.dtype != torch.float64
+            and not (torch.isfinite(L).all() and torch.isfinite(Q).all())
+        ):
+            raise ArithmeticError(
+                "torch.linalg.eigh returned non-finite eigenvalues or eigenvectors"
+            )
 
     except Exception as exception:
         # If the computation fails and retry_double_precision is True, retry in double precision
